@@ -21,3 +21,7 @@ def run(chk, program, tier):
                  ('RA-TRUNC', 'payload bounded by announced length'), ('RA-COUNT', 'completion counts exactly the stored payload bytes'), ('RA-SAFE', 'raise before write')):
         chk.rule(r, t)
     RR.decide(chk, program, tier, ['RA-KEY', 'RA-SEQ', 'RA-DUP', 'RA-RESET', 'RA-PRE', 'RA-ORDER', 'RA-DONE', 'RA-TRUNC', 'RA-COUNT', 'RA-SAFE'])
+    # the stream key is only as good as the addressing _decode hands to the reassembly: PGN, source and destination must arrive unchanged
+    chk.rule('DEC-REACH', 'every well-formed frame reaches the inner stage addressed as it arrived')
+    from .. import rules_filter as _RF
+    _RF.decode_reach(chk, program)
